@@ -28,14 +28,31 @@ def build_sets(ctx):
         for i, f in enumerate(units.split_files(rng, decls, nf)):
             files.append({'name': f'u{i}.st', 'kind': 'unit', 'decls': f, 'data': units.print_file(f, rng).encode()})
         if kind in ('syntax', 'mixed'):
-            files.append({'name': 'bad_syntax.st', 'kind': 'syntax', 'data': BAD_TEXTS['syntax'].encode()})
+            if rng.random() < 0.4:
+                # a syntax error at a long token that is not ASCII (messages quote the offending token)
+                body = ''.join(rng.choice('aäöüß€é ') for _ in range(rng.randint(120, 420)))
+                txt = f"PROGRAM N7006\nVAR\n  N7007 : STRING;\nEND_VAR\nN7007 := {'x' * rng.randint(0, 3)}'a' '{body}';\nEND_PROGRAM\n"
+                files.append({'name': 'bad_syntax.st', 'kind': 'syntax', 'data': txt.encode()})
+            else:
+                files.append({'name': 'bad_syntax.st', 'kind': 'syntax', 'data': BAD_TEXTS['syntax'].encode()})
         if kind == 'lexical':
             # a program with one invalid character, or a file of nothing but invalid characters (no token at all)
             files.append({'name': 'bad_lex.st', 'kind': 'lexical', 'data': rng.choice([BAD_TEXTS['lexical'], BAD_TEXTS['lexical'], '?', '$$$', '?\n', '\u00e9']).encode()})
         if kind == 'undecodable':
             files.append({'name': 'binary.st', 'kind': 'undecodable', 'data': UNDECODABLE})
         rng.shuffle(files)
+        # sometimes the names of two files of the set differ only in letter case
+        if len(files) >= 2 and rng.random() < 0.3:
+            a, b = rng.sample(range(len(files)), 2)
+            files[a] = dict(files[a], name='Unit.st'); files[b] = dict(files[b], name='unit.st')
         sets.append({'kind': kind, 'files': files})
+    # a syntax error at a long token of two-byte (three-byte) characters, shifted by 0..1 (0..2) bytes: wherever a message is
+    # cut, some shift has a character across the cut
+    for ch, shifts in (('ä', (0, 1)), ('€', (0, 1, 2))):
+        for sh in shifts:
+            txt = f"PROGRAM N7006\nVAR\n  N7007 : STRING;\nEND_VAR\nN7007 := {'x' * sh}'a' '{ch * 400}';\nEND_PROGRAM\n"
+            sets.append({'kind': 'syntax', 'files': [{'name': 'bad_syntax.st', 'kind': 'syntax', 'data': txt.encode()},
+                                                     {'name': 'u0.st', 'kind': 'unit', 'decls': [('R', 7201, 1, 2)], 'data': units.print_file([('R', 7201, 1, 2)], None).encode()}]})
     sets.append({'kind': 'empty', 'files': []})
     return sets
 
